@@ -457,10 +457,10 @@ def gen_ret(cx, ir_t, c_t, e, base, ctx="ret"):
         err_ir = None if isinstance(ir_t, Opt) else ir_t.err
         if (ok_ir is None) != (okt is None):
             raise Mismatch("%s: ok arm is %s in Rust but the record %s an ok member (unit arms must occupy no payload)"
-                           % (base, ok_ir.rust() if ok_ir else "()", "has" if okt else "has no"))
+                           % (base, ok_ir.rust() if ok_ir else "()", "has" if okt else "lacks"))
         if (err_ir is None) != (errt is None):
             raise Mismatch("%s: err arm is %s in Rust but the record %s an err member (unit arms must occupy no payload)"
-                           % (base, err_ir.rust() if err_ir else "()", "has" if errt else "has no"))
+                           % (base, err_ir.rust() if err_ir else "()", "has" if errt else "lacks"))
         oks = gen_ret(cx, ok_ir, okt, "%s.%s" % (e, ts.ok_path), base + "_ok", ctx) if ok_ir else Ret()
         errs = gen_ret(cx, err_ir, errt, "%s.%s" % (e, ts.err_path), base + "_err", ctx) if err_ir else Ret()
         fl = ts.flag_read(e)
@@ -806,6 +806,19 @@ def shape_sig(cm, t, depth=0):
     return t.kind
 
 
+def nominal_sig(cm, t, fn_name):
+    """the *name* a declaration uses for a record type, with the per-function prefix abstracted (`Op_m_result` -> `<fn>_result`):
+    two spellings of one signature must be declared through the same named types, not merely layout-compatible ones"""
+    if t.kind == "ptr":
+        return "*" + nominal_sig(cm, t.to, fn_name)
+    if t.kind in ("struct", "union", "enum") and t.tag:
+        base = t.tag[4:] if t.tag.startswith("tag-") else t.tag
+        if not re.fullmatch(r"\w+", base):
+            return "anon"
+        return base.replace(fn_name, "<fn>") if fn_name and fn_name in base else base
+    return t.kind
+
+
 def gen_pair_harness(cx, ma, mb):
     """ma/mb differ only in the spelling (std vs Diplomat) of their Option/Result types."""
     cm = cx.cm
@@ -817,6 +830,11 @@ def gen_pair_harness(cx, ma, mb):
     if sa != sb:
         raise Mismatch("C10: %s and %s differ only in Option/Result spelling but their C declarations differ: %s vs %s"
                        % (ma.abi_name(), mb.abi_name(), sa, sb))
+    na = [nominal_sig(cm, t, ma.abi_name()) for _, t in fa["params"]] + [nominal_sig(cm, fa["ret"], ma.abi_name())]
+    nb = [nominal_sig(cm, t, mb.abi_name()) for _, t in fb["params"]] + [nominal_sig(cm, fb["ret"], mb.abi_name())]
+    if na != nb:
+        raise Mismatch("C10: %s and %s differ only in Option/Result spelling but are declared through differently named C types: %s vs %s"
+                       % (ma.abi_name(), mb.abi_name(), na, nb))
     ir_params = []
     if ma.self_kind in ("ref", "mut"):
         ir_params.append(("self", OpaqueRef(ma.owner)))
@@ -959,6 +977,8 @@ def generate_all(mod, cm, steps=3):
                 tags.append("C12")
             static.append((m.abi_name(), msg, tags))
     for ed in mod.enums.values():
+        if dia(cm, "name") in getattr(ed, "disabled_in", ()):
+            continue        # the author disabled this enum for this back end: nothing is declared for it
         try:
             r = gen_enum_harness(cx, ed)
             if r:
